@@ -54,6 +54,8 @@ def landing_scenarios(quick):
     # a result much bigger than one buffer: the framing code of the remote kind sends and receives it in pieces
     out.append({'kind': 'R', 'target': 't_big', 'ending': 'landing'})
     out.append({'kind': 'PR', 'target': 'p_big', 'inputs': [1], 'close': True, 'ending': 'landing'})
+    # a thread worker reporting through a real pipe (what a Pool hands it) instead of the in-process queue
+    out.append({'kind': 'PT', 'target': 'p_echo', 'inputs': [1], 'close': True, 'pipe': 'supplied', 'ending': 'landing'})
     for kind in ('PT', 'PP', 'PR'):
         out.append({'kind': kind, 'target': 'p_echo', 'inputs': [1, 2], 'close': True, 'ending': 'landing'})
         out.append({'kind': kind, 'target': 'p_poison', 'inputs': [1, 99], 'close': True, 'ending': 'landing'})
@@ -134,6 +136,10 @@ def judge(case, obs):
     if obs.get('not_reached'):
         return ('beyond-end', None)
     d = obs.get('death')
+    tr = [x for x in (obs.get('terminate_ret') or []) if isinstance(x, str) and x.startswith('RAISES:')]
+    if (isinstance(d, str) and d.startswith('RAISES:')) or tr:
+        # the very call through which death is observed (wait / terminate / is_alive) raises: "never raise, however it died"
+        return ('observing-death-' + (d if isinstance(d, str) and d.startswith('RAISES:') else tr[0]), None)
     if d is not True:
         return ('not-dead', str(d))      # the property speaks about workers observed dead; C02/C04 judge this
     rounds = obs.get('rounds') or []
@@ -190,6 +196,20 @@ def slow_consumer_part(ctx):
                       {'op': 'get', 'var': 'w', 'attr': 'error', 'tag': 'error'},
                       {'op': 'get', 'var': 'w', 'attr': 'has_error', 'tag': 'has_error2'}]
                 cases.append({'script': sc, 'kind': kind, 'target': target, 'args': args, 'observe': obsv, 'expect': exp})
+    # the result takes the parent a while to recreate; the caller first waits with timeouts which are too short (that already
+    # tells it that the remote side is gone), then polls is_alive(): "dead" must come with the outcome
+    for v in ('slowobj',):
+        sc = [{'op': 'create', 'var': 'w', 'kind': 'R', 'target': 'ret_value', 'args': [v]},
+              {'op': 'sleep', 's': 0.15},
+              {'op': 'call', 'var': 'w', 'method': 'wait', 'args': [0.05], 'timeout': 20, 'tag': 'short-wait-1'},
+              {'op': 'call', 'var': 'w', 'method': 'wait', 'args': [0.05], 'timeout': 20, 'tag': 'short-wait-2'},
+              {'op': 'poll_dead', 'var': 'w', 'timeout': 30, 'tag': 'dead'},
+              {'op': 'get', 'var': 'w', 'attr': 'has_error', 'tag': 'has_error'},
+              {'op': 'get', 'var': 'w', 'attr': 'result', 'tag': 'result'},
+              {'op': 'get', 'var': 'w', 'attr': 'error', 'tag': 'error'},
+              {'op': 'sleep', 's': 0.6},
+              {'op': 'get', 'var': 'w', 'attr': 'has_error', 'tag': 'has_error2'}]
+        cases.append({'script': sc, 'kind': 'R', 'target': 'ret_value', 'args': [v], 'observe': 'short-waits-then-poll', 'expect': 'result'})
     res = land.run_cases(cases, case_timeout=120)
     for case, obs in zip(cases, res):
         ctx.count()
@@ -237,7 +257,7 @@ def run(ctx):
         ev = (case.get('events') or [None])[0]
         site = ((obs.get('landed') or [{}])[0].get('site')) or case.get('_site')      # where it really landed in this run
         ctx.count()
-        ctx.distinct((case['kind'], case['target'], case.get('observe'), case.get('ending'), repr(case.get('kill_after')), bool(case.get('post_call')), tuple((e['action'], e['k']) for e in (case.get('events') or []))))
+        ctx.distinct((case['kind'], case['target'], case.get('observe'), case.get('ending'), repr(case.get('kill_after')), bool(case.get('post_call')), case.get('pipe'), tuple((e['action'], e['k']) for e in (case.get('events') or []))))
         v = judge(case, obs)
         ctx.outcome('%s:%s' % (case['kind'], v[0] if v else 'ok'))
         if v is None:
@@ -261,7 +281,7 @@ def run(ctx):
             s2 = (l2[1].get('site') if len(l2) > 1 else None) or case.get('_site2')
             where = 'terminate@%s+terminate@%s' % (land.site_sig(site, REPO), land.site_sig(s2, REPO) if s2 else 'not-reached')
         sig = 'LAND/%s/%s/%s/%s' % (case['kind'], case['target'], where, v[0])
-        ctx.violation(sig, {k: case.get(k) for k in ('kind', 'target', 'inputs', 'close', 'events', 'observe', '_site', 'post_call')},
+        ctx.violation(sig, {k: case.get(k) for k in ('kind', 'target', 'inputs', 'close', 'events', 'observe', '_site', 'post_call', 'pipe')},
                       {'death': obs.get('death'), 'rounds': obs.get('rounds'), 'terminate_ret': obs.get('terminate_ret')},
                       'one definite, stable outcome of the expected shape', engine='LAND')
     slow_consumer_part(ctx)
